@@ -148,4 +148,24 @@ PROPS = {
                         "statement functions.",
              level_note="Trusted: Lean kernel; strings.TrimSpace (Unicode White_Space over UTF-8) is modelled; harness scripted handlers.",
              technique="Lean 4 proof (structural induction on handler programs and statement lists) + differential correspondence"),
+    "C06": P("Pw.Props.C06",
+             ["Pw.Props.C06.C06_skip", "Pw.Props.C06.C06_sync", "Pw.Props.C06.C06_error_one", "Pw.Props.C06.C06_bind_unknown",
+              "Pw.Props.C06.C06_execute_unknown", "Pw.Props.C06.C06_parse_reply", "Pw.Props.C06.C06_flush",
+              "Pw.Props.C06.C06_execute_no_ready"],
+             [("ext", 3000, 250000)], ["Consts"],
+             design_ref="§7 C06",
+             level_text="Lean theorems about the command handlers for EVERY session state and handler: while discarding, every message "
+                        "except Sync/Terminate changes nothing at all (no reply, no callback); Sync emits exactly one ReadyForQuery and "
+                        "ends discarding; a failing message emits exactly one ErrorResponse, no ReadyForQuery, and starts discarding; Bind "
+                        "to an unknown statement and Execute of an unknown portal are such errors; Parse answers ParseComplete or fails; "
+                        "Flush and stray COPY messages answer nothing; Execute never emits ReadyForQuery whatever the statement function "
+                        "does (via the C05 invariant over all programs). Tie: differential campaign of histories (<= 25 messages, 3 names, "
+                        "failing parsers/handlers, unknown names, oversized/unknown messages) delivered ONE MESSAGE PER SEGMENT; the "
+                        "oracle replays the history through the ExtSpec reference machine using the replies the real server wrote while "
+                        "exactly that message had been delivered (so a reply held back until later input is a violation) and the "
+                        "callbacks it ran then.",
+             level_note="Trusted: Lean kernel; harness transport's delivered-byte stamps; ExtSpec (Pw/Spec/Ext.lean, ~100 lines) is the "
+                        "reading of the property, incl. DESIGN §7 readings (oversized: E, plus Z only for Query; unknown type: E Z). The "
+                        "ReadyForQuery-count statement is proved per message, not yet lifted to whole histories.",
+             technique="Lean 4 proof (case analysis of handlers + C05 induction) + differential correspondence with reference-machine oracle"),
 }
